@@ -221,6 +221,22 @@ CHECKS["C17"] = dict(level=TV, design="DESIGN.md section 6, C17",
          "argument callables receive the insertion context, and the emitted text is inside the accepted grammar (ARM64 "
          "movz/movk chunks rebuild every 64-bit value).")
 
+CHECKS["C16"] = dict(level=TV, design="DESIGN.md section 6, C16",
+    note="Bounds: Constraints values are ENUMERATED (5 ABIs x flags x align_stack x preserve x scratch 0..3 x leaf x 6 clobber sets "
+         "x 4 read sets); the machine state is symbolic (every register, flags, stack pointer of any alignment, stack memory) and "
+         "the patch body is a havoc of exactly the declared resources. The symbolic CPU interprets the snippet TEXT returned by "
+         "the real ABI classes over a closed instruction set (anything else is inconclusive); integers are unbounded (no "
+         "wrap-around). Concrete replays assemble every snippet with the real assembler (acceptance only). Trusted: symx, the CPU "
+         "in harness/abi_cpu.py, z3.",
+    technique="symbolic CPU (z3 integers) executing the prologue/epilogue text generated by the real ABI code from a fully symbolic "
+              "machine state; configurations enumerated through symx choice points",
+    text="For every configuration z3 decides, for all machine states, that after the epilogue every declared register (clobbered, "
+         "scratch, caller-saved when preserved), the flags when declared and the stack pointer have their initial values, that "
+         "undeclared registers are untouched, that every store lies below the original stack pointer (and below the red zone in "
+         "a possible leaf function), that every load reads a slot this sequence stored, that the body runs ABI-aligned under "
+         "align_stack, that a reported stack_adjustment equals the real displacement, and that scratch registers are distinct, "
+         "as many as requested, not read, not reserved and saved.")
+
 NOT_YET = "check not built yet in this round (planned, see DESIGN.md section 6)"
 
 manifest = {
